@@ -142,6 +142,7 @@ class Ctx(object):
         self.log = []                 # effect log (harness-defined tuples)
         self.notes = {}               # free-form per-path data for harnesses
         self.maybe_infeasible = False
+        self.frozen = False           # set when the path has ended: oracles may query but not fork
         self.depth = 0                # interpreter call depth
 
     # -- fresh symbols (deterministic names so replayed prefixes line up) -----
@@ -269,6 +270,13 @@ class Ctx(object):
         if not feasible:
             # can only happen after an 'unknown' feasibility step
             raise PathAbort()
+        if self.frozen:
+            if len(feasible) > 1:
+                raise Unsupported("an oracle needed to fork after the end of the path (%s)" % label)
+            k = feasible[0]
+            if options[k] is not None:
+                self.pc.append(options[k])
+            return k
         if ex.shard is not None and len(self.prefix) == ex.split_depth - 1:
             feasible = [k for k in feasible if _shard_of(self.prefix + [k], ex.shard[1]) == ex.shard[0]]
             if not feasible:
@@ -306,6 +314,16 @@ class Ctx(object):
         if r == "unknown":
             raise Unsupported("solver answered unknown on a final query")
         return m
+
+    def small_model(self, extra, size_terms, caps=(70000, 1 << 20, 1 << 24)):
+        """a model of pc+extra preferring small values for `size_terms` (so that
+        counterexamples can be rebuilt concretely); None if pc+extra is unsat"""
+        for cap in caps:
+            r, m = self.query(list(extra) + [t <= cap for t in size_terms])
+            if r == "sat":
+                return m
+        r, m = self.query(list(extra))
+        return m if r == "sat" else None
 
     def must_hold(self, cond):
         """Is `cond` implied by the path condition?  Returns (True, None) or
@@ -391,6 +409,7 @@ class Explorer(object):
             if res is not None:
                 n += 1
                 STATS.paths += 1
+            c.frozen = True
             if res is None:
                 pass
             elif on_path is not None:
